@@ -124,6 +124,7 @@ type Cfg struct {
 	DefTTL     int     `json:"defTTL"` // -1: not configured
 	Origin     NameOpt `json:"origin"`
 	IncAllowed bool    `json:"incAllowed"`
+	File       hx.B    `json:"file"` // the path given to NewZoneParser for the zone file itself
 	Files      []File  `json:"files"`
 }
 
@@ -138,7 +139,7 @@ func (c Cfg) MarshalJSON() ([]byte, error) {
 		}
 	}
 	return json.Marshal(map[string]interface{}{"defTTL": c.DefTTL, "origin": NameOpt{c.Origin.Set, nnl(c.Origin.N)},
-		"incAllowed": c.IncAllowed, "files": files})
+		"incAllowed": c.IncAllowed, "file": nn(c.File), "files": files})
 }
 
 // Rec is a record as the specification denotes it and as the harness observes it.
@@ -219,8 +220,9 @@ var className = map[int]string{1: "IN", 3: "CH"}
 // Style chooses among the spellings the property statement lists. Noise = false gives the
 // canonical spelling (single spaces, upper-case mnemonics, decimal TTLs, no comments).
 type Style struct {
-	R     *rand.Rand
-	Noise bool
+	R         *rand.Rand
+	Noise     bool
+	AbsPrefix string // written in front of absolute $INCLUDE file names
 }
 
 func (s *Style) coin(n int) bool { return s.Noise && s.R.Intn(n) == 0 }
@@ -471,7 +473,11 @@ func (s *Style) Render(l Line) string {
 	case "ttl":
 		body = s.kw("$TTL") + s.sep() + s.TTLText(l.V)
 	case "include":
-		body = s.kw("$INCLUDE") + s.sep() + l.File.String()
+		name := l.File.String()
+		if strings.HasPrefix(name, "/") {
+			name = s.AbsPrefix + name // (runs on the real file system live under a temporary directory)
+		}
+		body = s.kw("$INCLUDE") + s.sep() + name
 		if l.Origin.K != "omit" {
 			body += s.sep() + s.RefText(l.Origin)
 		}
@@ -508,6 +514,7 @@ func (s *Style) Render(l Line) string {
 // the style inserted included) and, per rendered line, its byte range and the index of the
 // original line it spells (-1 for inserted blanks).
 type Spelling struct {
+	File  string // the name the parser was given for this text (errors are attributed to lines only when they name it)
 	Text  []byte
 	Lines []Line
 	Orig  []int
